@@ -1,6 +1,7 @@
 //! One module per property: alphabet, bounds, monitors, oracle.
 pub mod selftest;
 pub mod c01;
+pub mod c02;
 pub mod c03;
 pub mod c04;
 pub mod c05;
@@ -8,6 +9,7 @@ pub mod c06;
 pub mod c07;
 pub mod c09;
 pub mod c13;
+pub mod c14;
 pub mod c19;
 
 use serde_json::Value;
@@ -16,12 +18,15 @@ pub fn run(id: &str, tier: &str) -> i32 {
     match id {
         "C01" => c01::run(tier, false),
         "C10" => c01::run(tier, true),
+        "C02" => c02::run(tier, "C02"),
+        "C12" => c02::run(tier, "C12"),
         "C03" => c03::run(tier),
         "C04" => c04::run(tier),
         "C05" => c05::run(tier),
         "C06" => c06::run(tier),
         "C09" => c09::run(tier),
         "C13" => c13::run(tier),
+        "C14" => c14::run(tier),
         "C19" => c19::run(tier),
         "C07" => c07::run(tier, "C07"),
         "C08" => c07::run(tier, "C08"),
@@ -64,6 +69,7 @@ pub fn replay(id: &str, path: &str) -> i32 {
 fn replay_one(id: &str, v: &Value) -> Option<String> {
     match id {
         "C01" | "C10" => c01::replay(v, id == "C10"),
+        "C02" | "C12" => c02::replay(v, id),
         "C03" => c03::replay(v),
         "C04" => c04::replay(v),
         "C05" => c05::replay(v),
@@ -71,6 +77,7 @@ fn replay_one(id: &str, v: &Value) -> Option<String> {
         "C07" | "C08" => c07::replay(v, id),
         "C09" => c09::replay(v),
         "C13" => c13::replay(v),
+        "C14" => c14::replay(v),
         "C19" => c19::replay(v),
         _ => Some(format!("no replay driver for {}", id)),
     }
